@@ -38,8 +38,11 @@ class Refuse(Exception):
 
 
 # types: str int bool strs (list of str) optstr chars (module-level set of characters) words word optquote
-LEAN_TY = {"str": "Str", "int": "Int", "bool": "Bool", "strs": "List Str", "optstr": "Option Str",
+LEAN_TY = {"rval": "R PVal", "str": "Str", "int": "Int", "bool": "Bool", "strs": "List Str", "optstr": "Option Str",
            "words": "List Word", "word": "Word", "optquote": "Option Quote"}
+LEAN_TY.update({"val": "PVal", "optnum": "Option PNum", "optint": "Option Int", "optwords": "Option (List Word)",
+                "vals": "List PVal", "unit": "Unit", "fn:words->val": "(List Word → R PVal)",
+                "fn:val,words->val": "(PVal → List Word → R PVal)"})
 DEFAULT = {"str": "[]", "int": "0", "bool": "false", "strs": "[]"}
 
 # file, class (or None), function, parameters in Lean order (python name, type), result type
@@ -52,6 +55,31 @@ TARGETS = [
     dict(file="tokenizer.py", cls=None, func="quote_python_str", params=[("quote_token", "str"), ("string", "str")], ret="str"),
     dict(file="tokens.py", cls=None, func="is_plain_none", params=[("words", "words")], ret="bool"),
     dict(file="tokens.py", cls=None, func="is_plain_auto", params=[("words", "words")], ret="bool"),
+    # --- the converters' decision logic (monadic targets: may raise; result `R ret`); parameters of type "path"
+    # (path, master, path_producer: used in messages only) are dropped
+    dict(file="converters.py", cls=None, func="bool_from_words", monadic=True,
+         params=[("words", "words"), ("path", "path")], ret="val"),
+    dict(file="converters.py", cls="_check_value_base", func="_check_value", monadic=True,
+         params=[("self.value_min", "optnum"), ("self.value_max", "optnum"), ("value", "val"),
+                 ("path_producer", "path"), ("words", "optwords")], ret="unit"),
+    dict(file="converters.py", cls="numbers_converters_base", func="_check_size", monadic=True,
+         params=[("self.size_min", "optint"), ("self.size_max", "optint"), ("size", "int"),
+                 ("path_producer", "path"), ("words", "optwords")], ret="unit"),
+    dict(file="converters.py", cls=None, func="int_from_number", monadic=True,
+         params=[("number", "val"), ("words", "words"), ("path", "path")], ret="val"),
+    dict(file="converters.py", cls=None, func="float_from_number", monadic=True,
+         params=[("number", "val"), ("words", "words"), ("path", "path")], ret="val"),
+    dict(file="converters.py", cls=None, func="number_from_value_string", monadic=True, lean="number_from_value_string",
+         tail_at_try="eval_tail",
+         params=[("eval_tail", "rval"), ("value_string", "val"), ("words", "words"), ("path", "path")], ret="val"),
+    dict(file="converters.py", cls="number_converters_base", func="from_words", monadic=True, lean="number_from_words_gate",
+         params=[("self.value_min", "optnum"), ("self.value_max", "optnum"), ("self.allow_none", "bool"),
+                 ("self._value_from_words", "fn:words->val"), ("words", "words"), ("master", "path")], ret="val"),
+    dict(file="converters.py", cls="numbers_converters_base", func="from_words", monadic=True, lean="numbers_from_words_gate",
+         params=[("self.size_min", "optint"), ("self.size_max", "optint"), ("self.value_min", "optnum"),
+                 ("self.value_max", "optnum"), ("self.allow_none_elements", "bool"), ("self.allow_auto_elements", "bool"),
+                 ("self._value_from_number", "fn:val,words->val"), ("numbers_from_words", "fn:words->val"),
+                 ("words", "words"), ("master", "path")], ret="val"),
 ]
 
 LEAN_KEYWORDS = {"at", "from", "fun", "end", "in", "then", "else", "do", "let", "have", "show", "match", "with",
@@ -440,12 +468,398 @@ class Fn:
                           where, t["func"], binders, LEAN_TY[t["ret"]], t["func"], firststr[0], names))
 
 
+def tname(t):
+    return t.get("lean") or t["func"]
+
+
+def message_skeleton(e):
+    """the literal text of a message expression with the formatted values left out"""
+    if isinstance(e, ast.Constant) and isinstance(e.value, str):
+        return e.value
+    if isinstance(e, ast.BinOp) and isinstance(e.op, ast.Mod):
+        return message_skeleton(e.left)
+    if isinstance(e, ast.BinOp) and isinstance(e.op, ast.Add):
+        a, b = message_skeleton(e.left), message_skeleton(e.right)
+        return None if a is None or b is None else a + b
+    if isinstance(e, ast.JoinedStr):
+        out = ""
+        for v in e.values:
+            out += v.value if isinstance(v, ast.Constant) else "%s"
+        return out
+    return None
+
+
+def site_of(skeleton):
+    """the harness's SITE name of a RuntimeError message (harness/common.py: classify_runtime)"""
+    import sys
+    if HERE not in sys.path:
+        sys.path.insert(0, HERE)
+    from common import classify_runtime
+    return classify_runtime(skeleton.replace("%s", "x").replace("%d", "1"))[0]
+
+
+WHERE_STR_DEF = "def where_str():\n    if words is None:\n        return ''\n    return words[0].where_str()"
+
+
+class FnM(Fn):
+    """a function that may raise: the result is `R ret`; dynamically typed values are `PVal` (type "val")"""
+
+    def coerce(self, v, ty, want, node):
+        if ty == want:
+            return v
+        if want == "val":
+            if ty == "bool":
+                return "(PVal.bool %s)" % v
+            if ty == "optnum":
+                return "(Py.ofOptNum %s)" % v
+            if ty == "vals":
+                return "(PVal.list %s)" % v
+        if want == "optwords" and ty == "words":
+            return "(some %s)" % v
+        if want == "int" and ty == "optint":
+            return "(Py.getInt %s)" % v
+        self.refuse(node, "a value of type %s where %s is needed" % (ty, want))
+
+    def E(self, e, env):
+        if isinstance(e, ast.Constant) and e.value is None:
+            return "PVal.none", "val"
+        if (isinstance(e, ast.Attribute) and isinstance(e.value, ast.Name) and e.value.id == "freephil"
+                and e.attr == "Auto"):
+            return "PVal.auto", "val"
+        if isinstance(e, ast.Attribute) and isinstance(e.value, ast.Name) and env.get(e.value.id, ("", ""))[1] == "path":
+            return "()", "path"
+        if isinstance(e, ast.List) and not e.elts:
+            return "([] : List PVal)", "vals"
+        if isinstance(e, ast.Compare) and len(e.ops) == 1:
+            op, rhs = e.ops[0], e.comparators[0]
+            if isinstance(op, (ast.Is, ast.IsNot)):
+                a, ta = self.E(e.left, env)
+                neg = isinstance(op, ast.IsNot)
+                if isinstance(rhs, ast.Constant) and rhs.value is None:
+                    if ta == "val":
+                        r = "(Py.isNone %s)" % a
+                    elif ta in ("optnum", "optint", "optwords", "optstr", "optquote"):
+                        r = "%s.isNone" % a
+                    else:
+                        self.refuse(e, "`is None` on a value of type %s" % ta)
+                else:
+                    b, tb = self.E(rhs, env)
+                    if b != "PVal.auto" or ta != "val":
+                        self.refuse(e, "`is` with something other than None / Auto, or on a %s" % ta)
+                    r = "(Py.isAuto %s)" % a
+                return ("(!%s)" % r if neg else r), "bool"
+            if isinstance(op, (ast.Eq, ast.NotEq, ast.Lt, ast.LtE, ast.Gt, ast.GtE)):
+                a, ta = self.E(e.left, env)
+                b, tb = self.E(rhs, env)
+                if "val" in (ta, tb) or "optnum" in (ta, tb):
+                    fn = {ast.Eq: "Py.veq", ast.GtE: "Py.ge", ast.LtE: "Py.le"}.get(type(op))
+                    if fn is None:
+                        self.refuse(e, "comparison operator %s on objects" % type(op).__name__)
+                    return "(%s %s %s)" % (fn, self.coerce(a, ta, "val", e), self.coerce(b, tb, "val", e)), "bool"
+                if ta == tb == "optint" and isinstance(op, (ast.Eq, ast.NotEq)):
+                    return "(%s %s %s)" % (a, "==" if isinstance(op, ast.Eq) else "!=", b), "bool"
+                if set((ta, tb)) == {"int", "optint"}:
+                    sym = {ast.Lt: "<", ast.LtE: "≤", ast.Gt: ">", ast.GtE: "≥"}.get(type(op))
+                    if sym is None:
+                        self.refuse(e, "== between int and None-able int")
+                    return "decide (%s %s %s)" % (self.coerce(a, ta, "int", e), sym, self.coerce(b, tb, "int", e)), "bool"
+        return Fn.E(self, e, env)
+
+    def B(self, e, env):
+        v, ty = self.E(e, env)
+        if ty == "val":
+            return "(Py.vtruthy %s)" % v
+        if ty == "vals":
+            return "(!%s.isEmpty)" % v
+        if ty == "bool":
+            return v
+        if ty == "str":
+            return "(Py.truthy %s)" % v
+        self.refuse(e, "truth value of %s" % ty)
+
+    def call(self, e, env):
+        f = e.func
+        if isinstance(f, ast.Name) and not e.keywords and len(e.args) == 1:
+            if f.id in ("round", "int", "len") or f.id == "str_from_words":
+                v, ty = self.E(e.args[0], env)
+                if ty == "val" and f.id in ("round", "int"):
+                    return "(Py.%s %s)" % (f.id, v), "val"
+                if ty == "val" and f.id == "len":
+                    return "(Py.vlen %s)" % v, "int"
+                if ty == "words" and f.id == "str_from_words":
+                    return "(Py.str_from_words %s)" % v, "val"
+        if isinstance(f, ast.Name) and f.id == "isinstance" and len(e.args) == 2 and not e.keywords:
+            v, ty = self.E(e.args[0], env)
+            c = e.args[1]
+            if ty == "val" and isinstance(c, ast.Name) and c.id in ("int", "float"):
+                return "(Py.isinstance_%s %s)" % (c.id, v), "bool"
+            self.refuse(e, "isinstance test")
+        if (isinstance(f, ast.Attribute) and isinstance(f.value, ast.Name) and f.value.id == "math"
+                and f.attr == "isfinite" and len(e.args) == 1 and not e.keywords):
+            v, ty = self.E(e.args[0], env)
+            if ty == "val":
+                return "(Py.isfinite %s)" % v, "bool"
+        if isinstance(f, ast.Attribute) and f.attr in ("lower", "strip") and not e.args and not e.keywords:
+            v, ty = self.E(f.value, env)
+            if ty == "val":
+                v, ty = "(Py.strOf %s)" % v, "str"
+            if ty == "str":
+                return "(%s %s)" % ("Py.lower" if f.attr == "lower" else "Phil.strip", v), "str"
+        if isinstance(f, ast.Attribute) and isinstance(f.value, ast.Name) and env.get(f.value.id, ("", ""))[1] == "path":
+            return "()", "path"
+        return Fn.call(self, e, env)
+
+    # ---------- calls that may raise: (lean text of an `R _` expression, result type) or None
+    def mcall(self, e, env):
+        if not isinstance(e, ast.Call):
+            return None
+        f = e.func
+        key = None
+        if isinstance(f, ast.Name):
+            key = f.id
+        elif isinstance(f, ast.Attribute) and isinstance(f.value, ast.Name) and f.value.id == "self":
+            key = "self." + f.attr
+        if key is None:
+            return None
+        if not (key in env and env[key][1].startswith("fn:")) and not any(
+                t.get("monadic") and t["func"] == key.replace("self.", "") for t in self.alltargets):
+            return None
+        if e.args:
+            self.refuse(e, "positional arguments in a call that may raise")
+        given = {kw.arg: kw.value for kw in e.keywords}
+        if key in env and env[key][1].startswith("fn:"):
+            sig = env[key][1][3:]
+            argtys, ret = sig.split("->")
+            args = []
+            names = []
+            for kw in e.keywords:
+                v, ty = self.E(kw.value, env)
+                if ty == "path":
+                    continue
+                args.append((v, ty))
+                names.append(kw.arg)
+            if [t for _, t in args] != argtys.split(","):
+                self.refuse(e, "arguments of %s: %s, declared %s" % (key, [t for _, t in args], argtys))
+            return "(%s %s)" % (env[key][0], " ".join(v for v, _ in args)), ret
+        callee = None
+        for t in self.alltargets:
+            if t.get("monadic") and t["func"] == key.replace("self.", "") and tname(t) != tname(self.t) and (
+                    (t["cls"] is not None) == key.startswith("self.")):
+                callee = t
+        if callee is None:
+            return None
+        args = []
+        for p, ty in callee["params"]:
+            if ty == "path":
+                continue
+            if p.startswith("self."):
+                if p not in env:
+                    self.refuse(e, "callee attribute %s is not a parameter of the caller" % p)
+                v, tv = env[p]
+            elif p in given:
+                v, tv = self.E(given[p], env)
+            elif ty == "optwords":
+                v, tv = "none", "optwords"
+            else:
+                self.refuse(e, "argument %s of %s missing" % (p, key))
+            args.append(self.coerce(v, tv, ty, e))
+        for k in given:
+            if k not in [p for p, _ in callee["params"]]:
+                self.refuse(e, "unknown keyword %s" % k)
+        return "(%s %s)" % (tname(callee), " ".join(args)), callee["ret"]
+
+    def where(self, node, env):
+        """line expression for the `where_str` occurring in a message, or `none`"""
+        for n in ast.walk(node):
+            if isinstance(n, ast.Call):
+                f = n.func
+                if isinstance(f, ast.Name) and f.id == "where_str":
+                    if not self.has_where:
+                        self.refuse(n, "where_str() without the local helper")
+                    ty = env["words"][1]
+                    return "(Py.where_opt words)" if ty == "optwords" else "(Py.where_ words)"
+                if isinstance(f, ast.Attribute) and f.attr == "where_str":
+                    v = f.value
+                    if (isinstance(v, ast.Subscript) and isinstance(v.value, ast.Name) and v.value.id == "words"
+                            and isinstance(v.slice, ast.Constant) and v.slice.value == 0 and env["words"][1] == "words"):
+                        return "(Py.where_ words)"
+                    self.refuse(n, "where_str of something other than words[0]")
+        return "none"
+
+    def ret(self, v, ty, node):
+        want = self.t["ret"]
+        return ".ok %s" % self.coerce(v, ty, want, node)
+
+    def S(self, stmts, env, ind, cont=None):
+        pad = "  " * ind
+        if not stmts:
+            if cont is not None:
+                return pad + cont(env)
+            if self.t["ret"] == "unit":
+                return pad + ".ok ()"
+            raise Refuse("%s: a path falls off the end of the function (returns None)" % self.t["func"])
+        st, rest = stmts[0], stmts[1:]
+        if isinstance(st, ast.Expr) and isinstance(st.value, ast.Constant) and isinstance(st.value.value, str):
+            return self.S(rest, env, ind, cont)
+        if isinstance(st, ast.Pass):
+            return self.S(rest, env, ind, cont)
+        if isinstance(st, ast.FunctionDef):
+            if st.name == "where_str" and ast.unparse(st) == WHERE_STR_DEF and "words" in env:
+                self.has_where = True
+                return self.S(rest, env, ind, cont)
+            self.refuse(st, "local function other than the where_str helper")
+        if isinstance(st, ast.Return):
+            if cont is not None:
+                self.refuse(st, "return inside a loop")
+            if st.value is None:
+                self.refuse(st, "bare return")
+            m = self.mcall(st.value, env)
+            if m is not None:
+                if m[1] != self.t["ret"]:
+                    self.refuse(st, "returns %s, declared %s" % (m[1], self.t["ret"]))
+                return pad + m[0]
+            v, ty = self.E(st.value, env)
+            return pad + self.ret(v, ty, st)
+        if isinstance(st, ast.Raise):
+            exc = st.exc
+            if not (isinstance(exc, ast.Call) and isinstance(exc.func, ast.Name) and exc.func.id == "RuntimeError"
+                    and len(exc.args) == 1 and not exc.keywords):
+                self.refuse(st, "raise of something other than RuntimeError(message)")
+            sk = message_skeleton(exc.args[0])
+            if sk is None:
+                self.refuse(st, "message without a literal text")
+            site = site_of(sk)
+            if site == "other":
+                self.refuse(st, "message %r has no SITE name" % sk)
+            return '%s.error (Err.runtime "%s" %s)' % (pad, site, self.where(exc.args[0], env))
+        if isinstance(st, ast.Assert):
+            c = self.B(st.test, env)
+            return '%sif %s then\n%s\n%selse\n%s  .error (Err.stray "AssertionError" "%s")' % (
+                pad, c, self.S(rest, env, ind + 1, cont), pad, pad, self.t["func"])
+        if isinstance(st, ast.Try):
+            if st.orelse or st.finalbody or len(st.handlers) != 1 or len(st.body) != 1:
+                self.refuse(st, "try statement shape")
+            h = st.handlers[0]
+            b = st.body[0]
+            # `try: "%d" % x except ValueError: raise ...` — CPython refuses to write ints beyond
+            # sys.get_int_max_str_digits(); such ints are outside the modelled domain: no effect
+            if (isinstance(b, ast.Expr) and isinstance(b.value, ast.BinOp) and isinstance(b.value.op, ast.Mod)
+                    and isinstance(b.value.left, ast.Constant) and b.value.left.value == "%d"
+                    and isinstance(b.value.right, ast.Name) and isinstance(h.type, ast.Name) and h.type.id == "ValueError"):
+                return "%s-- try \"%%d\" %% %s: no effect on the modelled domain\n%s" % (
+                    pad, b.value.right.id, self.S(rest, env, ind, cont))
+            # `try: return float(x) except Cls: pass`
+            if (isinstance(b, ast.Return) and isinstance(b.value, ast.Call) and isinstance(b.value.func, ast.Name)
+                    and b.value.func.id == "float" and len(b.value.args) == 1 and not b.value.keywords
+                    and isinstance(h.type, ast.Name) and len(h.body) == 1 and isinstance(h.body[0], ast.Pass)
+                    and self.t["ret"] == "val" and cont is None):
+                v, ty = self.E(b.value.args[0], env)
+                if ty != "val":
+                    self.refuse(st, "float() of a %s" % ty)
+                return ("%smatch Py.float %s with\n%s| .ok v => .ok v\n%s| .error e =>\n%s  if Py.isExc e \"%s\" then\n%s\n%s  else .error e" % (
+                    pad, v, pad, pad, pad, h.type.id, self.S(rest, env, ind + 2, cont), pad))
+            if self.t.get("tail_at_try") and cont is None:
+                # everything from the first other `try` on is the declared tail parameter (int() / eval of the text)
+                return pad + env[self.t["tail_at_try"]][0]
+            self.refuse(st, "try statement")
+        if isinstance(st, ast.Expr):
+            c = st.value
+            # result.append(value) on a list accumulator
+            if (isinstance(c, ast.Call) and isinstance(c.func, ast.Attribute) and c.func.attr == "append"
+                    and isinstance(c.func.value, ast.Name) and env.get(c.func.value.id, ("", ""))[1] == "vals"
+                    and len(c.args) == 1 and not c.keywords):
+                name = c.func.value.id
+                v, ty = self.E(c.args[0], env)
+                return "%slet %s : List PVal := %s ++ [%s]\n%s" % (pad, lname(name), env[name][0],
+                                                                 self.coerce(v, ty, "val", st), self.S(rest, env, ind, cont))
+            m = self.mcall(c, env)
+            if m is None:
+                self.refuse(st, "expression statement")
+            return "%smatch %s with\n%s| .error e => .error e\n%s| .ok _ =>\n%s" % (
+                pad, m[0], pad, pad, self.S(rest, env, ind + 2, cont))
+        if isinstance(st, ast.Assign):
+            if len(st.targets) != 1 or not isinstance(st.targets[0], ast.Name):
+                self.refuse(st, "assignment target")
+            name = st.targets[0].id
+            m = self.mcall(st.value, env)
+            env2 = dict(env)
+            if m is not None:
+                env2[name] = (lname(name), m[1])
+                return "%smatch %s with\n%s| .error e => .error e\n%s| .ok %s =>\n%s" % (
+                    pad, m[0], pad, pad, lname(name), self.S(rest, env2, ind + 2, cont))
+            v, ty = self.E(st.value, env)
+            if ty == "path":
+                env2[name] = ("()", "path")
+                return self.S(rest, env2, ind, cont)
+            if ty not in LEAN_TY:
+                self.refuse(st, "assignment of a %s" % ty)
+            env2[name] = (lname(name), ty)
+            return "%slet %s : %s := %s\n%s" % (pad, lname(name), LEAN_TY[ty], v, self.S(rest, env2, ind, cont))
+        if isinstance(st, ast.If):
+            c = self.B(st.test, env)
+            return "%sif %s then\n%s\n%selse\n%s" % (pad, c, self.S(list(st.body) + rest, env, ind + 1, cont), pad,
+                                                 self.S(list(st.orelse) + rest, env, ind + 1, cont))
+        if isinstance(st, ast.For):
+            # `for x in xs: BODY` where BODY appends to ONE list accumulator `acc` (bound before the loop) → foldlM
+            if st.orelse or not isinstance(st.target, ast.Name) or cont is not None:
+                self.refuse(st, "for/else, a structured loop variable or a nested loop")
+            it, ty = self.E(st.iter, env)
+            if ty != "val":
+                self.refuse(st, "loop over %s" % ty)
+            accs = sorted(set(n.func.value.id for n in ast.walk(st) if isinstance(n, ast.Call)
+                              and isinstance(n.func, ast.Attribute) and n.func.attr == "append"
+                              and isinstance(n.func.value, ast.Name)))
+            if len(accs) != 1 or env.get(accs[0], ("", ""))[1] != "vals":
+                self.refuse(st, "loop without exactly one list accumulator")
+            acc = accs[0]
+            var = st.target.id
+            assigned = set(t.id for n in ast.walk(st) if isinstance(n, ast.Assign) for t in n.targets if isinstance(t, ast.Name))
+            for n in rest:
+                for x in ast.walk(n):
+                    if isinstance(x, ast.Name) and isinstance(x.ctx, ast.Load) and x.id in assigned | {var}:
+                        self.refuse(st, "a variable of the loop body is used after the loop")
+            env2 = dict(env)
+            env2[var] = (lname(var), "val")
+            body = self.S(list(st.body), env2, ind + 2, cont=lambda envx: ".ok %s" % envx[acc][0])
+            return ("%smatch (Py.items %s).foldlM (m := Except Err) (init := %s) (fun (%s : List PVal) (%s : PVal) =>\n%s) with\n%s| .error e => .error e\n%s| .ok %s =>\n%s" % (
+                pad, it, env[acc][0], lname(acc), lname(var), body, pad, pad, lname(acc), self.S(rest, env, ind + 2, None)))
+        self.refuse(st, "statement %s" % type(st).__name__)
+
+    def render(self):
+        t = self.t
+        self.has_where = False
+        a = self.node.args
+        if a.vararg or a.kwarg or a.kwonlyargs or getattr(a, "posonlyargs", []) or self.node.decorator_list:
+            raise Refuse("%s: signature with varargs / decorated" % t["func"])
+        for d in a.defaults:
+            if not (isinstance(d, ast.Constant) and d.value is None):
+                raise Refuse("%s: a default other than None" % t["func"])
+        if a.defaults:
+            last = [x.arg for x in a.args][-len(a.defaults):]
+            for p, ty in t["params"]:
+                if p in last and ty != "optwords":
+                    raise Refuse("%s: default None on %s of type %s" % (t["func"], p, ty))
+        pyargs = [x.arg for x in a.args if x.arg != "self"]
+        extra = [t.get("tail_at_try")]
+        declared = [p for p, ty in t["params"] if not p.startswith("self.") and not ty.startswith("fn:") and p not in extra]
+        declared += [p for p, ty in t["params"] if ty.startswith("fn:") and p in pyargs]
+        if sorted(pyargs) != sorted(declared):
+            raise Refuse("%s: parameters %s, expected %s" % (t["func"], pyargs, declared))
+        env = {p: (lname(p) if ty != "path" else "()", ty) for p, ty in t["params"]}
+        body = self.S(list(self.node.body), env, 1)
+        real = [(p, ty) for p, ty in t["params"] if ty != "path"]
+        binders = " ".join("(%s : %s)" % (lname(p), LEAN_TY[ty]) for p, ty in real)
+        where = "%s%s.%s" % (t["file"], ":" + t["cls"] if t["cls"] else "", t["func"])
+        return [], "/-- %s -/\ndef %s %s : R %s :=\n%s\n" % (where, tname(t), binders, LEAN_TY[t["ret"]], body)
+
+
 HEADER = """/-
   GENERATED by harness/translate.py from src/freephil — do not edit.
   Lean translations of pure leaf functions, regenerated on every check run; semantics of the Python subset:
-  Phil/Generated/PyPrelude.lean; equality with the hand-written model: Phil/Props/Translated.lean.
+  Phil/Generated/PyPrelude.lean; equality with the hand-written model: Phil/Props/Translated.lean, Phil/Props/Translated2.lean.
 -/
 import Phil.Generated.PyPrelude
+set_option linter.unusedVariables false
 namespace Phil.Gen
 """
 FOOTER = "\nend Phil.Gen\n"
@@ -459,18 +873,19 @@ def translate(old_text=None):
     """returns (text, notes).  A refused function keeps its committed block (if any) and yields a note."""
     notes = []
     old = blocks_of(old_text)
-    known = {t["func"]: t for t in TARGETS}
+    known = {t["func"]: t for t in TARGETS if not t.get("monadic")}
     trees = {}
     out = [HEADER]
     emitted_sets = set()
     for t in TARGETS:
-        name = t["func"]
+        name = tname(t)
         try:
             if t["file"] not in trees:
                 tree = ast.parse(_src(t["file"]))
                 trees[t["file"]] = (tree, char_sets(tree))
             tree, sets = trees[t["file"]]
-            fn = Fn(t, find_func(tree, t["cls"], name), sets, known)
+            fn = (FnM if t.get("monadic") else Fn)(t, find_func(tree, t["cls"], t["func"]), sets, known)
+            fn.alltargets = TARGETS
             set_defs, text = fn.render()
             block = "".join(d for s, d in set_defs if s not in emitted_sets) + text
             emitted_sets.update(fn.used_sets)
